@@ -102,8 +102,29 @@ theorem cache_fresh_after_section1 (env : Env) (now : Nat) (st : HostSt) (req : 
 /-! ### Coverage -/
 
 /-- The full case analysis behind freshness and coverage, per call. -/
+-- F39: second case (token acquired pre-emptively, before the first attempt): the scope
+-- it is recorded under contains `requestable req.required`, which is `req.required`
+-- whenever that is limited (`preemptive_bearer_covers_limited_required` below). An
+-- unlimited required scope cannot be asked of a token server, and since the fix the
+-- cache no longer pretends that the token delivered covers it.
 theorem bearer_covers (env : Env) (now : Nat) (st : HostSt) (req : ReqInfo)
     (hr : WF req.required) (hw : WF req.want) {host : Bytes} {a : Atom}
+    (hm : Msg.registry host (.bearer a) ∈ (roundTrip env now st req).2.1) :
+    (∃ t ∈ st.toks, t.tok = a ∧ now + marginMs ≤ t.expires ∧ contains t.scope req.required = true) ∨
+    (∃ sc tk ac rf e, Delivered env 0 tk ac rf e ∧ a = ⟨st.host, .access, pickToken tk ac⟩ ∧
+        contains sc (requestable req.required) = true ∧
+        (⟨sc, a, now + lifeOf e * 1000⟩ : Tok) ∈ (section1 env now st req).1.toks) ∨
+    (∃ hdrs ch sc tk ac rf e, env.reg 0 = .resp 401 hdrs ∧ chalOf st.host hdrs = some ch ∧
+        ch.scheme = .bearer ∧ Delivered env 1 tk ac rf e ∧ a = ⟨st.host, .access, pickToken tk ac⟩ ∧
+        contains sc (parseScope ch.scope) = true ∧
+        (⟨sc, a, now + lifeOf e * 1000⟩ : Tok) ∈ (section2 env now (section1 env now st req).1 ch req).1.toks) :=
+  roundTrip_bearer env now st req hr hw hm
+
+/-- F39: the reading of `bearer_covers` before the fix, for every limited required
+scope (the only ones it was true for: the scope a token was asked under is never
+unlimited, `token_server_never_asked_for_unlimited`). -/
+theorem preemptive_bearer_covers_limited_required (env : Env) (now : Nat) (st : HostSt) (req : ReqInfo)
+    (hr : WF req.required) (hw : WF req.want) (lr : req.required.unlimited = false) {host : Bytes} {a : Atom}
     (hm : Msg.registry host (.bearer a) ∈ (roundTrip env now st req).2.1) :
     (∃ t ∈ st.toks, t.tok = a ∧ now + marginMs ≤ t.expires ∧ contains t.scope req.required = true) ∨
     (∃ sc tk ac rf e, Delivered env 0 tk ac rf e ∧ a = ⟨st.host, .access, pickToken tk ac⟩ ∧
@@ -112,8 +133,9 @@ theorem bearer_covers (env : Env) (now : Nat) (st : HostSt) (req : ReqInfo)
     (∃ hdrs ch sc tk ac rf e, env.reg 0 = .resp 401 hdrs ∧ chalOf st.host hdrs = some ch ∧
         ch.scheme = .bearer ∧ Delivered env 1 tk ac rf e ∧ a = ⟨st.host, .access, pickToken tk ac⟩ ∧
         contains sc (parseScope ch.scope) = true ∧
-        (⟨sc, a, now + lifeOf e * 1000⟩ : Tok) ∈ (section2 env now (section1 env now st req).1 ch req).1.toks) :=
-  roundTrip_bearer env now st req hr hw hm
+        (⟨sc, a, now + lifeOf e * 1000⟩ : Tok) ∈ (section2 env now (section1 env now st req).1 ch req).1.toks) := by
+  have h := bearer_covers env now st req hr hw hm
+  rwa [requestable_of_limited lr] at h
 
 /-- Coverage as set inclusion (C09's `contains_iff_subset`): a cached token of a
 limited scope that is reused confers every resource scope the request requires. -/
@@ -168,10 +190,15 @@ theorem cache_hit_is_silent (env : Env) (now : Nat) (st : HostSt) (req : ReqInfo
 /-- In answer to a Bearer challenge every token request asks for
 `challenge scope ∪ (want ∪ required)` or, after a 401 from the token server, for
 the challenge scope alone; it goes to the challenge's realm with its service. -/
+-- F39: `want` and `required` enter with their requestable parts (themselves when
+-- limited, nothing when unlimited: `mem_requestable`), so the challenge scope is
+-- always in the request.
+-- was: TokMsg … (union (parseScope ch.scope) (union req.want req.required)) m ∨ …
 theorem token_request_scope (env : Env) (now : Nat) (st : HostSt) (ch : Chal) (req : ReqInfo) :
     ∀ m ∈ (section2 env now st ch req).2.1,
       ch.scheme = .bearer ∧
-      (TokMsg (setChallenge st ch) ch (union (parseScope ch.scope) (union req.want req.required)) m ∨
+      (TokMsg (setChallenge st ch) ch
+          (union (parseScope ch.scope) (union (requestable req.want) (requestable req.required))) m ∨
         TokMsg (setChallenge st ch) ch (parseScope ch.scope) m) := by
   intro m hm
   obtain ⟨h1, h2, _⟩ := section2_tokmsgs env now st ch req m hm
@@ -179,10 +206,13 @@ theorem token_request_scope (env : Env) (now : Nat) (st : HostSt) (ch : Chal) (r
 
 /-- A pre-emptive token request (refresh-token flow of the first section) asks for
 `required ∪ want`, or `required` alone after a 401. -/
+-- F39: with their requestable parts.
+-- was: TokMsg … (union req.required req.want) m ∨ TokMsg … req.required m
 theorem token_request_scope_preemptive (env : Env) (now : Nat) (st : HostSt) (req : ReqInfo) :
     ∀ m ∈ (section1 env now st req).2.1,
       ∃ ch, st.challenge = some ch ∧ ch.scheme = .bearer ∧
-        (TokMsg (prune now st) ch (union req.required req.want) m ∨ TokMsg (prune now st) ch req.required m) := by
+        (TokMsg (prune now st) ch (union (requestable req.required) (requestable req.want)) m ∨
+          TokMsg (prune now st) ch (requestable req.required) m) := by
   intro m hm
   obtain ⟨ch, h1, h2, _, h4, _⟩ := section1_tokmsgs env now st req m hm
   exact ⟨ch, h1, h2, h4⟩
@@ -190,23 +220,78 @@ theorem token_request_scope_preemptive (env : Env) (now : Nat) (st : HostSt) (re
 /-- The printed scope of the wide request is the union as a set
 (`mem_union`) and, when `want ∪ required` adds nothing to the challenge's scope,
 it is the challenge's own scope text, byte for byte (`union_noop_returns_receiver`). -/
-theorem token_request_text (ch : Chal) (req : ReqInfo) (hr : WF req.required) (hw : WF req.want)
-    (lr : req.required.unlimited = false) (lw : req.want.unlimited = false) :
-    (∀ r, Mem r (union (parseScope ch.scope) (union req.want req.required)) ↔
+-- F39: for EVERY required and desired scope — the hypotheses
+-- `lr : req.required.unlimited = false` and `lw : req.want.unlimited = false` are gone;
+-- the scope printed is the one of `token_request_scope`; third conjunct new: it is
+-- never the unlimited scope.
+theorem token_request_text (ch : Chal) (req : ReqInfo) (hr : WF req.required) (hw : WF req.want) :
+    (∀ r, Mem r (union (parseScope ch.scope) (union (requestable req.want) (requestable req.required))) ↔
       Mem r (parseScope ch.scope) ∨ Mem r req.want ∨ Mem r req.required) ∧
     ((∀ r, Mem r req.want ∨ Mem r req.required → Mem r (parseScope ch.scope)) →
-      toStr (union (parseScope ch.scope) (union req.want req.required)) = ch.scope) := by
-  have lu : (union req.want req.required).unlimited = false := by
-    rw [union_unlimited_eq]; simp [lr, lw]
-  have wu := C09.union_wf _ _ hw hr
-  constructor
+      toStr (union (parseScope ch.scope) (union (requestable req.want) (requestable req.required))) = ch.scope) ∧
+    (union (parseScope ch.scope) (union (requestable req.want) (requestable req.required))).unlimited = false := by
+  have lw := requestable_limited req.want
+  have lr := requestable_limited req.required
+  have hw' := requestable_wf hw
+  have hr' := requestable_wf hr
+  have lu := union_requestable_limited req.want req.required
+  have wu := C09.union_wf _ _ hw' hr'
+  refine ⟨?_, ?_, ?_⟩
   · intro r
     rw [C09.mem_union _ _ (C09.parseScope_wf _) wu (parseScope_limited _) lu,
-      C09.mem_union _ _ hw hr lw lr]
+      C09.mem_union _ _ hw' hr' lw lr, mem_requestable, mem_requestable]
   · intro hsub
     rw [C09.union_noop_returns_receiver _ _ (C09.parseScope_wf _) wu (parseScope_limited _) lu, toStr_parseScope]
-    intro r hr'
-    exact hsub r ((C09.mem_union _ _ hw hr lw lr r).mp hr')
+    intro r hr''
+    have h := (C09.mem_union _ _ hw' hr' lw lr r).mp hr''
+    rw [mem_requestable, mem_requestable] at h
+    exact hsub r h
+  · rw [union_unlimited_eq, parseScope_limited, lu]; rfl
+
+/-- F39: the same for the pre-emptive request of the first section: as a set it is
+`required ∪ want`, whatever the two scopes, and it is never the unlimited scope;
+the retry after a 401 asks for `required` as a set. -/
+theorem token_request_text_preemptive (req : ReqInfo) (hr : WF req.required) (hw : WF req.want) :
+    (∀ r, Mem r (union (requestable req.required) (requestable req.want)) ↔ Mem r req.required ∨ Mem r req.want) ∧
+    (union (requestable req.required) (requestable req.want)).unlimited = false ∧
+    (∀ r, Mem r (requestable req.required) ↔ Mem r req.required) ∧
+    (requestable req.required).unlimited = false := by
+  refine ⟨?_, union_requestable_limited _ _, mem_requestable _, requestable_limited _⟩
+  intro r
+  rw [C09.mem_union _ _ (requestable_wf hr) (requestable_wf hw) (requestable_limited _) (requestable_limited _),
+    mem_requestable, mem_requestable]
+
+/-- F39: no token request of either section asks for the unlimited scope (whose
+text would be `*`): the scope it was made for is limited. -/
+theorem token_server_never_asked_for_unlimited (env : Env) (now : Nat) (st : HostSt) (ch : Chal) (req : ReqInfo) :
+    (∀ m ∈ (section2 env now st ch req).2.1,
+      ∃ sc, sc.unlimited = false ∧ TokMsg (setChallenge st ch) ch sc m) ∧
+    (∀ m ∈ (section1 env now st req).2.1,
+      ∃ ch' sc, st.challenge = some ch' ∧ sc.unlimited = false ∧ TokMsg (prune now st) ch' sc m) := by
+  constructor
+  · intro m hm
+    obtain ⟨_, h | h, _⟩ := section2_tokmsgs env now st ch req m hm
+    · refine ⟨_, ?_, h⟩
+      rw [union_unlimited_eq, parseScope_limited, union_requestable_limited]; rfl
+    · exact ⟨_, parseScope_limited _, h⟩
+  · intro m hm
+    obtain ⟨ch', h1, _, _, h | h, _⟩ := section1_tokmsgs env now st req m hm
+    · exact ⟨ch', _, h1, union_requestable_limited _ _, h⟩
+    · exact ⟨ch', _, h1, requestable_limited _, h⟩
+
+/-- F39: a token delivered by a token server is never cached as good for every
+scope: whatever a section adds to the cache has a limited scope … -/
+theorem cache_never_records_unlimited (env : Env) (now : Nat) (st : HostSt) (ch : Chal) (req : ReqInfo) :
+    (∀ t ∈ (section2 env now st ch req).1.toks, t ∈ st.toks ∨ t.scope.unlimited = false) ∧
+    (∀ t ∈ (section1 env now st req).1.toks, t ∈ st.toks ∨ t.scope.unlimited = false) :=
+  ⟨section2_toks_limited env now st ch req, section1_toks_limited env now st req⟩
+
+/-- … so over every history the only cached token that covers every scope is the
+access token configured for this host. -/
+theorem unlimited_token_is_the_configured_one {host : Bytes} {e : ConfigEntry} {st : HostSt} {envs : List Env}
+    (h : Reach host e st envs) :
+    ∀ t ∈ st.toks, t.scope.unlimited = true → t.tok = ⟨host, .access, e.accessToken⟩ ∧ e.accessToken ≠ [] :=
+  reach_unlimited_configured h
 
 /-- The fallback request prints the challenge's scope text unchanged. -/
 theorem token_request_fallback_text (ch : Chal) : toStr (parseScope ch.scope) = ch.scope :=
@@ -227,6 +312,9 @@ theorem shape_setAuthorizationFromChallenge :
     AuthShape.fingerprint "registry.setAuthorizationFromChallenge" =
       some AuthShape.registry_setAuthorizationFromChallenge := by decide
 theorem shape_init : AuthShape.fingerprint "registry.init" = some AuthShape.registry_init := by decide
+/-- F39: the helper the model's `requestable` mirrors. -/
+theorem shape_requestableScope :
+    AuthShape.fingerprint "requestableScope" = some AuthShape.requestableScope := by decide
 /-- The constants the model uses for the margin and the default lifetime are the
 ones in the fingerprinted calls (`Add(time.Second)`, `Add(60 * time.Second)`). -/
 theorem time_constants :
@@ -270,12 +358,47 @@ example : ∀ r, Mem r exPull ∨ Mem r exPull → Mem r exBoth := by
     (parseScope_limited _) (parseScope_limited _)).mp (by decide) r
   rcases h with h | h <;> exact this h
 /-- … so the request prints the challenge's own text. -/
-example : toStr (union exBoth (union exPull exPull)) = strBytes "repository:foo:pull,push" :=
+example : toStr (union exBoth (union (requestable exPull) (requestable exPull))) = strBytes "repository:foo:pull,push" :=
   (token_request_text ⟨[114], .bearer, [98], [], strBytes "repository:foo:pull,push"⟩ ⟨exPull, exPull⟩
-    (parseScope_wf _) (parseScope_wf _) (parseScope_limited _) (parseScope_limited _)).2 (by
+    (parseScope_wf _) (parseScope_wf _)).2.1 (by
       intro r h
       have := (C09.contains_iff_subset exBoth exPull (parseScope_wf _) (parseScope_wf _)
         (parseScope_limited _) (parseScope_limited _)).mp (by decide) r
       rcases h with h | h <;> exact this h)
+/-- F39: the same with an UNLIMITED desired scope (`ContextWithScope(ctx, UnlimitedScope())`),
+required = pull: the request still prints the challenge's own text, not `*` … -/
+example : toStr (union exBoth (union (requestable unlimitedScope) (requestable exPull))) =
+    strBytes "repository:foo:pull,push" :=
+  (token_request_text ⟨[114], .bearer, [98], [], strBytes "repository:foo:pull,push"⟩ ⟨exPull, unlimitedScope⟩
+    (parseScope_wf _) wf_unlimitedScope).2.1 (by
+      intro r h
+      have := (C09.contains_iff_subset exBoth exPull (parseScope_wf _) (parseScope_wf _)
+        (parseScope_limited _) (parseScope_limited _)).mp (by decide) r
+      rcases h with h | h
+      · exact absurd h (by simp [Mem, iter, unlimitedScope])
+      · exact this h)
+/-- … and when the challenge names less than is required (challenge pull, required
+pull+push, desired unlimited) the request is the text of challenge ∪ required; before
+the fix it was `*` (`toStr unlimitedScope`). -/
+example : toStr (union exPull (union (requestable unlimitedScope) (requestable exBoth))) =
+    strBytes "repository:foo:pull,push" ∧ toStr (union exPull (union unlimitedScope exBoth)) = [42] := by
+  decide +kernel
+/-- The run of the auditor's reproduction in the model: host "r", no credentials, first
+request (required pull, desired unlimited) answered 401 with a Bearer challenge for
+scope "repository:foo:pull"; the token server delivers "T". The token request carries
+the challenge's scope text, and "T" is cached under the challenge's scope — not under the
+unlimited scope. -/
+def exEnv : Env :=
+  { reg := fun i => if i = 0 then .resp 401 [strBytes "Bearer realm=\"b\",scope=\"repository:foo:pull\""] else .resp 200 []
+    tok := fun _ _ _ => .json [84] [] [] 3600
+    realmOk := fun _ => true }
+def exFresh : HostSt := { host := [114], challenge := none, toks := [], refresh := none, basic := none }
+example :
+    (roundTrip exEnv 0 exFresh ⟨exPull, unlimitedScope⟩).2.1 =
+      [Msg.registry [114] .none,
+       Msg.tokenGET [98] [114] none (strBytes "repository:foo:pull") [],
+       Msg.registry [114] (.bearer ⟨[114], .access, [84]⟩)] ∧
+    (roundTrip exEnv 0 exFresh ⟨exPull, unlimitedScope⟩).1.toks =
+      [⟨exPull, ⟨[114], .access, [84]⟩, 3600000⟩] := by decide +kernel
 
 end OciModel.Props.C10
